@@ -495,3 +495,41 @@ def arm_table(prog, body, adt_name, switch_blk=None):
                     ret.add("dyn:call:" + callee(tt))
         table[vn] = {"blocks": mine, "ret": ret, "self_writes": writes, "calls": cs, "target": tgt}
     return table
+
+
+# --------------------------------------------------------------------------- deep origins
+
+def deep_places(body, op, depth=8, _seen=None):
+    """all places an operand's value may derive from, looking through copies, refs, projections of locals and
+    *every argument* of intermediate calls (over-approximation used to associate a value with the field it came from)"""
+    out = []
+    seen = _seen if _seen is not None else set()
+    work = [(op, depth)]
+    while work:
+        o, d = work.pop()
+        p = op_place(o)
+        if p is None:
+            continue
+        key = (tuple(p), )
+        if key in seen or d < 0:
+            continue
+        seen.add(key)
+        out.append(p)
+        base = p[0]
+        for og in body.trace_local(base, 6):
+            if og[0] == "place":
+                if (tuple(og[1]),) not in seen:
+                    work.append((["c", og[1]], d - 1))
+            elif og[0] == "call":
+                for a in og[2]["args"]:
+                    work.append((a, d - 1))
+            elif og[0] == "rv":
+                for a in rvalue_operands(og[1]):
+                    work.append((a, d - 1))
+                for pl in rvalue_places(og[1]):
+                    work.append((["c", pl], d - 1))
+    return out
+
+
+def places_have_field(places, adt, field):
+    return any(place_has_field(p, adt, field) for p in places)
